@@ -828,7 +828,10 @@ func (in *Interp) globalPtr(st *State, g *ssa.Global) Value {
 			if _, ok := st.globals[gg]; !ok {
 				et := gg.Type().(*types.Pointer).Elem()
 				var cell Value = in.zero(et)
-				if !allowed && !zeroIsFine(et) {
+				if gg.String() == "time.startNano" || gg.String() == "internal/bytealg.MaxLen" {
+					// bytealg.MaxLen = 0: strings.Index and friends take their portable Go paths
+					// the monotonic clock of the model counts from process start
+				} else if !allowed && !zeroIsFine(et) {
 					// the package's init is not executed: its variables have no
 					// trustworthy value, any use in a decision ends the path loudly
 					cell = Poison{"global " + gg.String() + " of a package whose init is not executed"}
@@ -858,7 +861,7 @@ func zeroIsFine(t types.Type) bool {
 }
 
 var initDeny = []string{"runtime", "internal/", "syscall", "os", "sync", "reflect", "unsafe", "time", "context", "crypto/", "math/rand", "unique",
-	"github.com/sirupsen/logrus", "unicode", "fmt", "log", "sort", "strconv", "database/sql", "github.com/mattn", "github.com/fsnotify",
+	"github.com/sirupsen/logrus", "unicode", "fmt", "log", "sort", "database/sql", "github.com/mattn", "github.com/fsnotify",
 	"github.com/spf13", "github.com/google/gopacket", "golang.org/x/sys", "golang.org/x/net", "encoding/json", "math/big", "regexp", "text/", "html",
 	"github.com/chappjc", "github.com/bits-and-blooms/bitset", "vendor/", "golang.org/x/text", "gopkg.in", "github.com/pelletier", "github.com/hashicorp",
 	"github.com/magiconair", "github.com/mitchellh", "github.com/subosito", "github.com/sagikazarmark", "github.com/sourcegraph", "mime", "compress", "archive",
